@@ -234,6 +234,18 @@ func globalIsStored(p *Prog, g *ssa.Global) bool {
 // run evaluates fn with the given parameter values (missing ones unknown) up to the first call of a
 // function for which isTarget holds, and returns the values of that call's arguments.
 func (ce *constEval) run(p *Prog, fn *ssa.Function, params map[*ssa.Parameter]*cv, isTarget func(*ssa.CallCommon) bool) ([]*cv, error) {
+	return ce.exec(p, fn, params, isTarget, 0)
+}
+
+// call evaluates fn to its return with the given parameter values and yields the returned values.
+func (ce *constEval) call(p *Prog, fn *ssa.Function, params map[*ssa.Parameter]*cv) ([]*cv, error) {
+	return ce.exec(p, fn, params, nil, 0)
+}
+
+// exec: with a target predicate, stops at the first such call and yields its arguments; without one,
+// runs to the return and yields its results.  Calls of module functions whose arguments are all known
+// integers or booleans are evaluated in place (bounded depth); other calls yield unknown.
+func (ce *constEval) exec(p *Prog, fn *ssa.Function, params map[*ssa.Parameter]*cv, isTarget func(*ssa.CallCommon) bool, depth int) ([]*cv, error) {
 	env := map[ssa.Value]*cv{}
 	var val func(v ssa.Value) *cv
 	val = func(v ssa.Value) *cv {
@@ -487,7 +499,7 @@ func (ce *constEval) run(p *Prog, fn *ssa.Function, params map[*ssa.Parameter]*c
 					env[x] = cvU
 				}
 			case *ssa.Call:
-				if isTarget(&x.Call) {
+				if isTarget != nil && isTarget(&x.Call) {
 					var out []*cv
 					for _, a := range x.Call.Args {
 						out = append(out, val(a))
@@ -504,6 +516,28 @@ func (ce *constEval) run(p *Prog, fn *ssa.Function, params map[*ssa.Parameter]*c
 						continue
 					}
 				}
+				// a pure helper of the module with known arguments: evaluated in place
+				if h := x.Call.StaticCallee(); h != nil && depth < 4 && len(h.Blocks) > 0 && h.Pkg != nil && fn.Pkg != nil && h.Pkg == fn.Pkg && len(h.Params) == len(x.Call.Args) {
+					hp := map[*ssa.Parameter]*cv{}
+					allKnown := true
+					for i, a := range x.Call.Args {
+						v := val(a)
+						if v.kind != cvInt && v.kind != cvBool {
+							allKnown = false
+						}
+						hp[h.Params[i]] = v
+					}
+					if allKnown {
+						if rets, err := ce.exec(p, h, hp, nil, depth+1); err == nil {
+							if len(rets) == 1 {
+								env[x] = rets[0]
+							} else {
+								env[x] = &cv{kind: cvTuple, elems: rets}
+							}
+							continue
+						}
+					}
+				}
 				env[x] = cvU
 			case *ssa.If:
 				cnd := val(x.Cond)
@@ -518,6 +552,13 @@ func (ce *constEval) run(p *Prog, fn *ssa.Function, params map[*ssa.Parameter]*c
 			case *ssa.Jump:
 				next = b.Succs[0]
 			case *ssa.Return:
+				if isTarget == nil {
+					var out []*cv
+					for _, r := range x.Results {
+						out = append(out, val(r))
+					}
+					return out, nil
+				}
 				return nil, fmt.Errorf("returned without reaching the call")
 			case *ssa.DebugRef:
 			default:
